@@ -130,8 +130,7 @@ func exploreItem(scs []Scenario, cfg Config, it item) result {
 			return
 		}
 		seen[key] = true
-		same, _ := vsched.Replay(r.Choices, cfg.MaxPoints, sc.Body, 5)
-		if !same {
+		if !confirm(sc, cfg, r.Choices, key) {
 			res.Nondet = fmt.Sprintf("scenario %s schedule %v (%s) does not replay deterministically", sc.Name, r.Choices, key)
 			return
 		}
@@ -141,6 +140,28 @@ func exploreItem(scs []Scenario, cfg Config, it item) result {
 	res.Executions, res.MaxPts, res.MaxG = x.Executions, x.MaxPts, x.MaxG
 	res.Deadlocks, res.Horizons, res.Capped, res.Diverged = x.Deadlocks, x.Horizons, x.Capped, x.Diverged
 	return res
+}
+
+// confirm re-executes a violating schedule 5 times from its recorded choices;
+// the violation is believed only if every replay follows the same choices and
+// violates the same rule (same key).
+func confirm(sc Scenario, cfg Config, choices []int, key string) bool {
+	for i := 0; i < 5; i++ {
+		r := vsched.Run(choices, cfg.MaxPoints, sc.Body)
+		if r.Diverged != "" || fmt.Sprint(r.Choices) != fmt.Sprint(choices) {
+			return false
+		}
+		k := ""
+		if r.Horizon {
+			k = "step-horizon-exceeded"
+		} else if sc.Oracle != nil {
+			k, _ = sc.Oracle(r)
+		}
+		if k != key {
+			return false
+		}
+	}
+	return true
 }
 
 // Serve is the worker loop: one JSON item per line on stdin, one JSON result per line on stdout.
@@ -381,8 +402,7 @@ func exploreItemRootOnly(scs []Scenario, cfg Config, si int) rootOut {
 		key, msg = sc.Oracle(r)
 	}
 	if key != "" {
-		same, _ := vsched.Replay(r.Choices, cfg.MaxPoints, sc.Body, 5)
-		if !same {
+		if !confirm(sc, cfg, r.Choices, key) {
 			res.Nondet = fmt.Sprintf("scenario %s default schedule does not replay deterministically", sc.Name)
 		} else {
 			res.Viols = append(res.Viols, viol{key, msg, r.Choices, r.Log})
